@@ -1277,3 +1277,15 @@ def _range_contains(it, a, c):
     r = deref(a[0]); x = deref(a[1])
     lo, hi = r.fields[0], r.fields[1]
     return zand(x >= lo, (x <= hi) if 'Inclusive' in c.key else (x < hi))
+
+
+@model('std::collections::BTreeMap::clear', 'std::collections::HashMap::clear')
+def _map_clear(it, a, c): deref(a[0]).pairs[:] = []; return UNIT()
+
+
+@model('std::collections::BTreeMap::retain', 'std::collections::HashMap::retain')
+def _map_retain(it, a, c):
+    m = deref(a[0]); keep = []
+    for p in m.pairs:
+        if it.ctx.branch(it.call_closure(a[1], [Ref(p, 0), Ref(p, 1)]), 'retain'): keep.append(p)
+    m.pairs[:] = keep; return UNIT()
